@@ -212,4 +212,15 @@ def Accepts (I : Inst) (P : Packing) : Prop :=
 
 instance (I : Inst) (P : Packing) : Decidable (Accepts I P) := by unfold Accepts; infer_instance
 
+/-- `Pack.feasibleB` with a guard: the shared decision procedure enumerates `List.range k.toNat`,
+which does not terminate in practice for a corrupted `n_bins` like 10^12; more bins than rows is
+never feasible (`Proofs/PackVal.lean: feasibleFast_eq`). -/
+def feasibleFast (I : Inst) (rows : List Row) (k : Int) : Bool :=
+  if k > (rows.length : Int) then false else feasibleB I rows k
+
+/-- Boolean form of `Accepts` used by the driver (`acc=`) -/
+def acceptsB (I : Inst) (P : Packing) : Bool :=
+  P.ownInst && decide (I.dtype? = some P.dtype) && decide (P.HasShape I.nItems) &&
+    feasibleFast I P.rowsR P.nBins
+
 end PackVal
